@@ -68,6 +68,7 @@ func (line *Line) IntersectsRect(rect Rect) bool {
 
 func (line *Line) ContainsLine(other *Line) bool {
 	if line == nil || other == nil || line.Empty() || other.Empty() {
+		verifTraceLine("empty", line, other, false)
 		return false
 	}
 	// locate the first "other" segment that contains the first "line" segment.
@@ -80,6 +81,7 @@ func (line *Line) ContainsLine(other *Line) bool {
 		}
 	}
 	if segIdx == -1 {
+		verifTraceLine("nofirst", line, other, false)
 		return false
 	}
 	otherNumSegments := other.NumSegments()
@@ -98,6 +100,7 @@ func (line *Line) ContainsLine(other *Line) bool {
 		if otherSeg.A == lineSeg.A && dir <= 0 {
 			// reverse it
 			if segIdx == 0 {
+				verifTraceLine("back-end", line, other, false)
 				return false
 			}
 			segIdx--
@@ -106,6 +109,7 @@ func (line *Line) ContainsLine(other *Line) bool {
 		} else if otherSeg.A == lineSeg.B && dir >= 0 {
 			// forward it
 			if segIdx == lineNumSegments-1 {
+				verifTraceLine("fwd-end", line, other, false)
 				return false
 			}
 			segIdx++
@@ -113,9 +117,11 @@ func (line *Line) ContainsLine(other *Line) bool {
 			dir = 1
 		} else if dir != 0 {
 			// moved, and the segment is not there either
+			verifTraceLine("moved-miss", line, other, false)
 			return false
 		}
 	}
+	verifTraceLine("walked", line, other, true)
 	return true
 }
 
